@@ -13,7 +13,7 @@ EXPLANATION = (
     "that loop, carries the first iteration's choice into later iterations - so a reported value depends on what else was requested and in what order. R20b alias-then-augment: "
     "`X[k] = E` with X a dict and E persistent array storage, reaching an augmented assignment of the same slot, mutates E in place. R20c (effect summaries): reporting functions "
     "(plotting.py, cascade.py, results.py) do not definitely mutate the Result / Model they are given, and Series.__init__ stores copies of its array arguments. "
-    "R20d: cascade values are extracted only after sanitize_cascade (which validates nesting). R20e: the Result getters never hand out the model's own arrays: every value placed in a mapping they return (or edit in place) is a fresh array - a copy or the result of arithmetic - because the getters themselves and the plotting code edit those entries in place. Numeric identities (sums, averages, monotone cascades) are not decided."
+    "R20d: cascade values are extracted only after sanitize_cascade (which validates nesting). R20e: the Result getters never hand out the model's own arrays: every value placed in a mapping they return (or edit in place) is a fresh array - a copy or the result of arithmetic - because the getters themselves and the plotting code edit those entries in place. R20f: the aggregation branches of PlotData have the algebraic form that makes 'sum = sum of parts' and 'average within the range of the parts' true: sum over the requested labels, the same sum divided by their count, and a quotient of two sums with one weight mapping over the same labels. R20g: a masked division in the reporting code masks on its denominator (or zero-fills a zero numerator), so an average of zero parts is 0 and not the fill value. Numeric identities (sums, averages, monotone cascades) are not decided."
 )
 
 
@@ -25,6 +25,8 @@ def run(ctx):
     ctx.each(r20c, ctx, repo, T, E)
     ctx.each(r20d, ctx, repo)
     ctx.each(r20e, ctx, repo)
+    ctx.each(r20f, ctx, repo)
+    ctx.each(r20g, ctx, repo)
 
 
 def _bound_in(loop):
@@ -317,3 +319,148 @@ def r20e(ctx, repo):
                     n += 1
                     ctx.check(fresh(v.value), "R20e", fi, enclosing_stmt(v), "comprehension builds fresh values", "`%s` places existing arrays in the returned mapping" % ast.unparse(v)[:60])
     ctx.require(n >= 4, "R20e: fewer stores into returned mappings (%d) than confirmed (4)" % n)
+
+
+def _sum_over(e):
+    """sum(<elt> for <x> in <L>)  ->  (elt text, x, L text) ; else None"""
+    if isinstance(e, ast.Call) and isinstance(e.func, ast.Name) and e.func.id == "sum" and len(e.args) == 1 and isinstance(e.args[0], (ast.GeneratorExp, ast.ListComp)) and len(e.args[0].generators) == 1:
+        g = e.args[0].generators[0]
+        if not g.ifs and isinstance(g.target, ast.Name):
+            return e.args[0].elt, g.target.id, ast.unparse(g.iter)
+    return None
+
+
+def _branch_value(body, target_txt):
+    """Symbolic value of ``target_txt`` after the straight-line statements of ``body`` (locals substituted); None if not straight-line."""
+    env = {}
+
+    def subst(e):
+        e = ast.parse(ast.unparse(e), mode="eval").body
+
+        class S(ast.NodeTransformer):
+            def visit_Name(self, n):
+                if isinstance(n.ctx, ast.Load) and n.id in env:
+                    return ast.parse(ast.unparse(env[n.id]), mode="eval").body
+                return n
+
+        return S().visit(e)
+
+    for st in body:
+        if isinstance(st, ast.If) and all(isinstance(x, ast.Expr) and isinstance(x.value, ast.Call) and ast.unparse(x.value.func).startswith("logger.") for x in st.body) and not st.orelse:
+            continue
+        if isinstance(st, ast.Assign) and len(st.targets) == 1:
+            env[ast.unparse(st.targets[0])] = subst(st.value)
+        elif isinstance(st, ast.AugAssign) and ast.unparse(st.target) in env:
+            env[ast.unparse(st.target)] = ast.BinOp(left=env[ast.unparse(st.target)], op=st.op, right=subst(st.value))
+        elif isinstance(st, ast.Expr) and isinstance(st.value, ast.Call) and ast.unparse(st.value.func).startswith("logger."):
+            continue
+        else:
+            return None
+    return env.get(target_txt)
+
+
+def _is_div(e):
+    """(numerator, denominator) of  a / b  or  np.divide(a, b, ...)"""
+    if isinstance(e, ast.BinOp) and isinstance(e.op, ast.Div):
+        return e.left, e.right
+    if isinstance(e, ast.Call) and ast.unparse(e.func) in ("np.divide", "numpy.divide") and len(e.args) >= 2:
+        return e.args[0], e.args[1]
+    return None
+
+
+def r20f(ctx, repo):
+    ctx.rule("R20f", "aggregation algebra in PlotData.__init__ (outputs, then populations): 'sum' is sum(E[x] for x in L); 'average' is that sum divided by len(L) of the same L; 'weighted' is sum(E[x]*W[x] for x in L) / sum(W[x] for x in L) with one weight mapping W and the same L; the part expression E is the same in all three branches")
+    fi = repo.func("plotting", "PlotData.__init__")
+    chains = []
+    for s_ in own_nodes(fi.node):
+        if isinstance(s_, ast.If) and isinstance(s_.test, ast.Compare) and isinstance(s_.test.left, ast.Name) and len(s_.test.ops) == 1 and isinstance(s_.test.ops[0], ast.Eq) and isinstance(s_.test.comparators[0], ast.Constant) and s_.test.comparators[0].value == "sum" and not (isinstance(getattr(s_, "_parent", None), ast.If) and s_ in getattr(s_._parent, "orelse", []) and isinstance(s_._parent.test, ast.Compare) and ast.unparse(s_._parent.test.left) == s_.test.left.id):
+            chains.append(s_)
+    ctx.require(len(chains) >= 2, "R20f: aggregation dispatch chains (`if <x>_method == 'sum': ... elif 'average' ... elif 'weighted'`) not found twice in PlotData.__init__ (found %d)" % len(chains))
+    for ch in chains:
+        var = ch.test.left.id
+        branches = {}
+        cur = ch
+        tail = None
+        while True:
+            branches[cur.test.comparators[0].value] = cur.body
+            if len(cur.orelse) == 1 and isinstance(cur.orelse[0], ast.If) and isinstance(cur.orelse[0].test, ast.Compare) and ast.unparse(cur.orelse[0].test.left) == var:
+                cur = cur.orelse[0]
+            else:
+                tail = cur.orelse
+                break
+        ok = {"sum", "average", "weighted"} == set(branches)
+        ctx.check(ok, "R20f", fi, ch, "%s dispatch handles exactly sum / average / weighted" % var, "the %s dispatch handles %s, expected sum / average / weighted" % (var, sorted(branches)), stmt_text="%s:dispatch" % var)
+        if not ok:
+            continue
+        # common target of the three branches
+        tg = None
+        for st in branches["sum"]:
+            if isinstance(st, ast.Assign):
+                tg = ast.unparse(st.targets[0])
+        vals = {k: _branch_value(b, tg) for k, b in branches.items()}
+        if any(v is None for v in vals.values()):
+            ctx.fail("R20f", fi, ch, "a branch of the %s dispatch is not straight-line assignments to `%s`; the aggregate cannot be read off" % (var, tg), stmt_text="%s:shape" % var)
+            continue
+        s0 = _sum_over(vals["sum"])
+        ctx.check(s0 is not None, "R20f", fi, branches["sum"][-1], "'sum' = sum(E[x] for x in L)", "the 'sum' aggregate `%s` is not a plain sum of the parts over the requested labels" % ast.unparse(vals["sum"])[:80], stmt_text="%s:sum" % var)
+        if s0 is None:
+            continue
+        E, x, L = ast.unparse(s0[0]), s0[1], s0[2]
+        d = _is_div(vals["average"])
+        a0 = _sum_over(d[0]) if d else None
+        ok = d is not None and a0 is not None and (ast.unparse(a0[0]), a0[1], a0[2]) == (E, x, L) and ast.unparse(d[1]) == "len(%s)" % L
+        ctx.check(ok, "R20f", fi, branches["average"][-1], "'average' = sum(E[x] for x in L) / len(L)", "the 'average' aggregate `%s` is not the sum of the same parts `%s` over `%s` divided by len(%s): an average could fall outside the range of its parts" % (ast.unparse(vals["average"])[:90], E, L, L), stmt_text="%s:average" % var)
+        d = _is_div(vals["weighted"])
+        n0 = _sum_over(d[0]) if d else None
+        m0 = _sum_over(d[1]) if d else None
+        ok = False
+        why = "is not a quotient of two sums"
+        if n0 is not None and m0 is not None:
+            ne = n0[0]
+            w = None
+            if isinstance(ne, ast.BinOp) and isinstance(ne.op, ast.Mult):
+                for part, other in ((ne.left, ne.right), (ne.right, ne.left)):
+                    if ast.unparse(part) == E.replace(x, n0[1]) or ast.unparse(part) == E:
+                        w = other
+            why = "numerator is not E[x] * W[x] with the part expression `%s`" % E
+            if w is not None:
+                wt = ast.unparse(w)
+                me = ast.unparse(m0[0])
+                same_w = isinstance(w, ast.Subscript) and isinstance(w.slice, ast.Name) and w.slice.id == n0[1] and isinstance(m0[0], ast.Subscript) and ast.unparse(m0[0].value) == ast.unparse(w.value) and isinstance(m0[0].slice, ast.Name) and m0[0].slice.id == m0[1]
+                ok = same_w and n0[2] == L and m0[2] == L
+                why = "weights in the numerator (`%s` over `%s`) and in the denominator (`%s` over `%s`) differ, or range over something other than `%s`" % (wt, n0[2], me, m0[2], L)
+        ctx.check(ok, "R20f", fi, branches["weighted"][-1], "'weighted' = sum(E[x]*W[x]) / sum(W[x]) over the same L", "the 'weighted' aggregate `%s` %s: a weighted average could leave the range of its parts" % (ast.unparse(vals["weighted"])[:100], why), stmt_text="%s:weighted" % var)
+
+
+def masked_division_ok(c):
+    """
+    np.divide(a, b, out=F, where=W): the skipped positions keep F.  Accepted: W is a comparison that has the
+    denominator b as one side (b != 0, b > 0, b > x ...), or the documented 0/x = 0 idiom (W is `a != 0` and F is zeros).
+    """
+    num, den = ast.unparse(c.args[0]), ast.unparse(c.args[1])
+    w = astq.kwarg(c, "where")
+    out = astq.kwarg(c, "out")
+    if isinstance(w, ast.Compare) and len(w.ops) == 1:
+        sides = (ast.unparse(w.left), ast.unparse(w.comparators[0]))
+        if den in sides and isinstance(w.ops[0], (ast.NotEq, ast.Gt, ast.Lt)):
+            return True, "mask tests the denominator"
+        if num in sides and isinstance(w.ops[0], ast.NotEq) and "0" in sides and out is not None and isinstance(out, ast.Call) and ast.unparse(out.func) in ("np.zeros_like", "np.zeros"):
+            return True, "0/x = 0 idiom (zero fill where the numerator is zero)"
+    return False, "mask `%s` is not a test of the denominator `%s` and the fill `%s` is not the value of the quotient where the mask is false" % (ast.unparse(w) if w is not None else None, den, ast.unparse(out)[:40] if out is not None else None)
+
+
+def r20g(ctx, repo):
+    ctx.rule("R20g", "masked divisions in the reporting modules (plotting.py, results.py, cascade.py): np.divide(a, b, out=F, where=W) skips exactly the positions where the denominator is zero (W compares b), or fills zeros where the numerator is zero; a mask on the numerator with another fill turns a legitimate 0/b = 0 into the fill value")
+    n = 0
+    elsewhere = []
+    for f in repo.all_functions():
+        for c in own_nodes(f.node):
+            if isinstance(c, ast.Call) and ast.unparse(c.func) in ("np.divide", "numpy.divide") and len(c.args) >= 2 and astq.kwarg(c, "where") is not None:
+                ok, why = masked_division_ok(c)
+                if f.module.name.split(".")[-1] in ("plotting", "results", "cascade"):
+                    n += 1
+                    ctx.check(ok, "R20g", f, enclosing_stmt(c), "`%s`: %s" % (ast.unparse(c)[:50], why), "`%s`: %s - an average of parts that are all zero is reported as the fill value instead of 0, outside the range of its parts" % (ast.unparse(c)[:90], why))
+                else:
+                    elsewhere.append("%s:%d %s %s" % (f.module.relpath, c.lineno, "ok" if ok else "NOT OK", why))
+    ctx.extra["masked_divisions_elsewhere"] = elsewhere
+    ctx.require(n >= 1, "R20g: no masked division found in the reporting modules")
